@@ -49,7 +49,7 @@ void h_funcframe_tail_b(void) {
   f.data = malloc(FIB_BLOCK * sizeof(Janet)); __CPROVER_assume(f.data != (void *)0);
   f.frame = nd_i32(); f.stackstart = nd_i32(); f.stacktop = nd_i32();
   /* representation invariant (see fib_frame.c) */
-  __CPROVER_assume(f.frame >= JANET_FRAME_SIZE && f.frame <= f.stackstart - JANET_FRAME_SIZE && f.stackstart <= f.stacktop && f.stacktop <= f.capacity);
+  __CPROVER_assume(f.frame >= JANET_FRAME_SIZE && f.stackstart >= 2 * JANET_FRAME_SIZE && f.stackstart <= FIB_CAP && f.stacktop <= FIB_CAP && f.frame <= f.stackstart - JANET_FRAME_SIZE && f.stackstart <= f.stacktop && f.stacktop <= f.capacity);
   def.slotcount = nd_i32(); def.arity = nd_i32(); def.min_arity = nd_i32(); def.max_arity = nd_i32(); def.flags = nd_i32();
   int va = (def.flags & JANET_FUNCDEF_FLAG_VARARG) != 0;
   __CPROVER_assume(def.slotcount >= 0 && def.slotcount <= FIB_CAP / 2 && def.arity >= 0 && def.arity <= def.slotcount - va);
